@@ -1,6 +1,7 @@
 import Driver.Proto
 import Verif.Model.SvgDoc
 import Verif.Model.SvgNum
+import Verif.Spec.SvgDocSpec
 /-! driver handlers for C05B (document loop of `svg.go`): ops `model.c05b.*`, `trig.c05b` (`spec.c05b.*` below) -/
 namespace Verif.Driver.C05B
 open Verif Verif.Driver Verif.Model.SvgDoc
@@ -86,7 +87,41 @@ def trig : Handler := fun args => do
   let ts ← argToks args 0
   .ok (listReply ((if trigForeignAttr ts then ["foreignAttr"] else []).map strBytes))
 
+/-- `spec.c05b.holds inline inputTokens outputTokens` → failing clauses of the structural clause (empty = holds),
+then the guards of `svg_structure_partial` that do NOT hold for the input (`defs1`, `foreignObject`, `shape`) -/
+def holds : Handler := fun args => do
+  let inl ← argBool args 0
+  let i ← argToks args 1
+  let o ← argToks args 2
+  let guards := (if Spec.SvgDocSpec.hasDefs1 i then ["guard:defs1"] else []) ++
+    (if Spec.SvgDocSpec.hasForeignObject i then ["guard:foreignObject"] else []) ++
+    (if Spec.SvgDocSpec.attrShape false i then [] else ["guard:shape"])
+  .ok (listReply ((Spec.SvgDocSpec.holds inl i o ++ guards).map strBytes))
+
+/-- `spec.c05b.dim value` → `1` when the specification reads the value as number + unit and `parse.Dimension`
+(model) agrees with that reading (hypothesis `hagree` of `dimension_value_ok`), `0` when they disagree, `-` when
+the specification does not read a dimension -/
+def dim : Handler := fun args => do
+  let v ← argChars args 0
+  match Spec.SvgPath.lexNumber v with
+  | some (x, u) =>
+    if Spec.SvgDocSpec.isUnit u && !x.isEmpty then
+      .ok (boolBytes (dimension v == (x.length, u.length) && Spec.SvgPath.lexNumber x == some (x, [])))
+    else .ok []
+  | none => .ok []
+
+/-- `spec.c05b.numok in out` → `1` when `out` satisfies the contract `NumOk` for the number lexeme `in`
+(same exact value, again a number lexeme, also in front of a unit); `-` when `in` is not a number lexeme -/
+def numok : Handler := fun args => do
+  let x ← argChars args 0
+  let y ← argChars args 1
+  if Spec.SvgPath.lexNumber x != some (x, []) then .ok [] else
+  .ok (boolBytes (Spec.SvgPath.numVal y == Spec.SvgPath.numVal x &&
+    Spec.SvgPath.lexNumber y == some (y, []) && Spec.SvgPath.lexNumber (y ++ ['e', 'm']) == some (y, ['e', 'm']) &&
+    Spec.SvgPath.lexNumber (y ++ ['%']) == some (y, ['%'])))
+
 def handlers : List (String × Handler) :=
-  [("model.c05b.requests", requests), ("model.c05b.minify", minify), ("trig.c05b", trig)]
+  [("model.c05b.requests", requests), ("model.c05b.minify", minify), ("trig.c05b", trig),
+   ("spec.c05b.holds", holds), ("spec.c05b.dim", dim), ("spec.c05b.numok", numok)]
 
 end Verif.Driver.C05B
